@@ -103,11 +103,56 @@ def _single_part(first, mode, vw, lw):
     return single
 
 
+# ----------------------------------------------------------------------------------------------------------------------
+# HISTORY: the caller LOOKS at the network while it is being built.  Every public function of confusion_networks.py that
+# takes a network and is not documented as changing it, applied to the network the caller holds (still unnormalised), and
+# the changing ones applied to a deep copy.  What they return is not judged here (the statement speaks about paths of the
+# normalised network only); what is recorded is the network object the caller holds, AFTER the call.
+def _combos(net):
+    n = 1
+    for col in net:
+        n *= max(1, len(col))
+    return n
+
+
+READERS = {
+    "get_pivot": lambda net: CN.get_pivot(net),
+    "best_cn_path": lambda net: CN.best_cn_path(net),
+    "sorted_cn_paths": lambda net: CN.sorted_cn_paths(net),
+    "normalize_copy": lambda net: CN.normalize_cn(copy.deepcopy(net)),
+    "paths_of_normalized_copy": lambda net: CN.sorted_cn_paths(CN.normalize_cn(copy.deepcopy(net))),
+    "add_on_copy": lambda net: CN.add_hypothese(copy.deepcopy(net), "ab", 1.0),
+}
+ENUMERATING = ("sorted_cn_paths", "paths_of_normalized_copy")
+
+
+def _do_reads(net, ops, max_paths=None):
+    """the queries `ops` on the network `net` the caller holds -> records for the trace field reads[j]"""
+    out = []
+    for op in ops:
+        if op in ENUMERATING and _combos(net) > (max_paths or MAX_PATHS):
+            continue              # nobody enumerates 4^9 paths; decided from the network alone, so a replay decides the same
+        r = {"op": op, "outcome": "ok"}
+        try:
+            READERS[op](net)
+        except Exception as ex:     # part of the observation
+            r["outcome"] = "exception:" + type(ex).__name__
+        r["net"] = project_net(net)
+        out.append(r)
+    return out
+
+
 def replay_history(case, max_paths=None):
     """case = {"mode": "add"|"boh", "hyps": [{"h": [..], "vis": int, "lm": int}], "vw": int, "lw": int}
-    max_paths: enumerate the paths only for networks with at most that many arc combinations (default MAX_PATHS)"""
+    max_paths: enumerate the paths only for networks with at most that many arc combinations (default MAX_PATHS)
+    optional case["reads_plan"][j] = names of READERS the caller applies to the network after the j-th addition (mode "add":
+    the SAME network object then goes into the next add_hypothese call; the final part is taken after the last query)"""
     mode, hyps, vw, lw = case["mode"], case["hyps"], case["vw"], case["lw"]
     rec = {"mode": mode, "hyps": hyps, "vw": vw, "lw": lw, "outcome": [], "nets": []}
+    plan = case.get("reads_plan")
+    if plan is not None:
+        rec["reads_plan"] = plan
+        rec["reads"] = [[] for _ in hyps]
     net = []
     last_ok = []
     for j, hyp in enumerate(hyps):
@@ -127,6 +172,9 @@ def replay_history(case, max_paths=None):
             rec["nets"].append([])
             rec["outcome"].append("exception:" + type(ex).__name__)
             break
+        if plan is not None and j < len(plan) and plan[j]:
+            rec["reads"][j] = _do_reads(net, plan[j], max_paths)
+            last_ok = copy.deepcopy(net)       # the caller goes on with the object it holds
     while len(rec["outcome"]) < len(hyps):
         rec["nets"].append([])
         rec["outcome"].append("not-run")
